@@ -49,6 +49,39 @@ func VsymC16_StoreIsolation() {
 	}
 }
 
+// A history of commits over two fixed triples with metadata chosen from {"", "x", "yy"}: each
+// fetch returns offset and metadata of the last commit to that triple (an empty metadata
+// string replaces an earlier non-empty one).
+func VsymC16_StoreHistory() {
+	ctx := context.Background()
+	st := NewInMemoryStore(ClusterMetadata{})
+	metas := []string{"", "x", "yy"}
+	type last struct {
+		off  int64
+		meta string
+		set  bool
+	}
+	var ref [2]last
+	n := vsym_Param("commits")
+	for i := 0; i < n; i++ {
+		k := vsym_Choose("triple", 2)
+		off := vsym_Int64("off")
+		vsym_Assume(off >= 0)
+		meta := metas[vsym_Choose("meta", len(metas))]
+		vsym_Assert(st.CommitConsumerOffset(ctx, "g", "t", int32(k), off, meta) == nil, "C16/commit-ok")
+		ref[k] = last{off, meta, true}
+	}
+	for k := 0; k < 2; k++ {
+		got, meta, err := st.FetchConsumerOffset(ctx, "g", "t", int32(k))
+		vsym_Assert(err == nil, "C16/fetch-ok")
+		if ref[k].set {
+			vsym_Reach("history-fetched")
+			vsym_Assert(got == ref[k].off, "C16/fetch-returns-last-committed-offset")
+			vsym_Assert(meta == ref[k].meta, "C16/fetch-returns-last-committed-metadata")
+		}
+	}
+}
+
 func VsymC16_Twin() {
 	st := NewInMemoryStore(ClusterMetadata{})
 	_ = st.CommitConsumerOffset(context.Background(), "g", "t", 0, vsym_Int64("o"), "")
